@@ -296,6 +296,11 @@ def run(chk):
         ca, cb = rng.choice([("cdr3a", "cdr3b"), ("alpha_seq", "second"), ("A", "B"), (0, 1), (1, 0)]) if t >= 2 else ((0, 1), (1, 0))[t]
         df = pd.DataFrame({ca: al, cb: be, "meta": metav, "other": [rng.choice("pq") for _ in range(n)]}, index=rng.sample(range(100), n))
         single = rng.choice([None, None, "alpha", "beta"]) if isinstance(ca, str) else None      # (integer column labels: paired form only)
+        if t in (2, 3):
+            single = ("alpha", "beta")[t - 2]       # every run: both single-chain forms
+            if isinstance(ca, int):
+                df = df.rename(columns={ca: "cdr3a", cb: "cdr3b"})
+                ca, cb = "cdr3a", "cdr3b"
         kws = {}
         if (ca, cb) != ("cdr3a", "cdr3b") or single:
             kws = dict(alpha_column=ca, beta_column=cb)
@@ -313,10 +318,10 @@ def run(chk):
             kws["meta_columns"] = ["meta"]
             kws["meta_to_colors"] = [pl.labels_to_colors_hls, red_blue]
         method, tcut, crit = "average", 6, "distance"
-        if rng.random() < 0.5:
+        if rng.random() < 0.5 and t not in (0, 4):       # (maps 0 and 4 of every run use the documented default linkage / cluster options)
             method = rng.choice(["single", "complete", "average"])
             kws["linkage_kws"] = dict(method=method)
-        if rng.random() < 0.5:
+        if rng.random() < 0.5 and t not in (0, 4):
             tcut, crit = rng.choice([(2, "distance"), (3, "distance"), (2, "maxclust"), (4, "distance")])
             kws["cluster_kws"] = dict(t=tcut, criterion=crit)
         real = core.call_real(lambda: pl.similarity_clustermap(df, **kws))
